@@ -14,8 +14,11 @@ import Tickit.Driver.Common
   they must equal the VT's initial ones (`teardown_restores`) - the mode state at hand-over is a parameter of
   the history (`new … vis=0`: the cursor is hidden; the replies fed must be those of such a terminal, and the
   program then leaves cursor visibility alone: `handoverOk`); every read-back must equal the ghost
-  (`getctl_last_set`).  The contract (documented API use) is tracked explicitly: between pause and
-  resume nothing but resume/teardown/unref, after teardown nothing but unref, mouse modes 0…3, text
+  (`getctl_last_set`).  The contract is tracked explicitly (`phaseNextW`): the program may go on setting controls,
+  changing the pen and writing between pause and resume (the property quantifies over these in any order relative to
+  pause/resume cycles) - the terminal then shows a mixture of the restored state and what was set since, so only
+  the read-backs are judged until the next resume (running clauses) or teardown / destruction (restoration
+  clause); no second pause while paused, no resume without pause, after teardown nothing but unref, mouse modes 0…3, text
   payloads without control bytes; the RGB8 capability does not change while the pen asked for holds an RGB8
   colour.  Outside the contract only model = implementation is compared.
 
@@ -33,7 +36,7 @@ open Tickit Tickit.Driver Tickit.Modes
 structure St where
   sys   : Option Sys := none
   gone  : Bool := false
-  phase : Phase := .running
+  phase : PhaseW := .running
   vt    : VT := {}
   vt0   : VModes := {}
   lg    : Ghost := {}
@@ -227,7 +230,7 @@ def capOf (ctl : List String) : Bool := ctl.getLast? == some "1"
 def ghostStep (st : St) (op : Op) (implRet : String) : St :=
   let ret : Option Bool := if implRet = "1" then some true else if implRet = "0" then some false else none
   let lg := st.lg.step op ret st.ua
-  match phaseNext st.phase op with
+  match phaseNextW st.phase op with
   | some ph => { st with lg := lg, phase := ph, inContract := st.inContract && opOk op && handoverOk st.vt0 op }
   | none => { st with lg := lg, inContract := false }
 
@@ -245,8 +248,13 @@ def specAfter (st : St) (what : String) (obs : ImplObs) : String :=
     -- on a terminal handed over with a hidden cursor the program (inside the contract) never sets cursor
     -- visibility: there is no "value last set" to read back
     let g := if obs.ctl.isEmpty then [] else checkGetctl st.vt0.cursorVisible obs.ctl st.lg
-    let restored := st.gone || st.phase != .running
-    if restored then
+    let restored := st.gone || st.phase == .paused || st.phase == .stopped
+    if !restored && st.phase == .pausedOps then
+      -- paused, and the program has called the library since: what it switched on is on the terminal now (to be
+      -- switched back by teardown / destruction, re-established by resume); only the read-backs are judged here
+      let v := if (st.vt.feed obs.held).ps ≠ .ground then ["output ends inside an escape sequence"] else []
+      "; ".intercalate (g ++ v)
+    else if restored then
       -- pause / teardown / destruction: judged on what has reached the terminal when the call returns
       let h := clause (!obs.held.isEmpty) s!"after {what}: {obs.held.length} bytes written by the call are still in the output buffer when it returns"
       let v :=
